@@ -48,3 +48,14 @@ Theorem C07_grouped_write_one_frame_per_sink_quads :
     emitted evs = flat_map one_frame (per_sink_rows_q sinks s).
 Proof. exact grouped_write_one_frame_per_sink_quads. Qed.
 Print Assumptions C07_grouped_write_one_frame_per_sink_quads.
+
+(* rdflib: grouped_stream_to_frames over Graph sinks through a shared TripleStream with a GraphsFrameFlow
+   is the generic grouped write -- one frame per non-empty graph *)
+From PJ.Proofs Require Import EncRdflib RdflibFlush.
+Theorem C07_grouped_write_one_frame_per_graph_rdflib :
+  forall (sinks : list rdata) (s s' : stream) (evs : list tev),
+    Forall (fun d => rd_kind d <> RDataset) sinks -> st_class s = TripleStream -> fl_kind (st_flow s) = FGraphs ->
+    rdf_grouped_frames sinks s = (s', evs) -> raised evs = None ->
+    emitted evs = flat_map one_frame (per_sink_rows (map sdata_of sinks) s).
+Proof. exact rdf_grouped_write_one_frame_per_graph. Qed.
+Print Assumptions C07_grouped_write_one_frame_per_graph_rdflib.
